@@ -115,6 +115,14 @@ def CONFIGS():
                  "c": job(1, 1, 0, 1, [("D1", 1)], ud=1, tag=2)},
         "maxdup": 1, "engine": "contract",
     })
+    # small hostile instance (replayed in the quick tier): duplicates, cancellation before RUNNING, two locations
+    C["cancel"] = finish({
+        "locs": {"L1": hwloc("D1", 2, 2, 2, 2), "L2": slotloc("D2", 1)},
+        "deps": {"D1": ["L1"], "D2": ["L2"]},
+        "jobs": {"a": job(2, 1, 1, 1, [("D1", 1), ("D2", 1)], ur=1, tag=0),
+                 "b": job(1, 2, 1, 0, [("D1", 1)], tag=1)},
+        "maxdup": 1, "engine": "contract",
+    })
     # larger instances (simulation only)
     C["big"] = finish({
         "locs": {"L1": hwloc("D1", 3, 4, 4, 3), "L2": hwloc("D1", 2, 2, 2, 4), "L3": slotloc("D2", 2),
@@ -616,7 +624,8 @@ def oracle_c12(cfg, proj):
         for ti, t in enumerate(J["targets"]):
             free = [l for l in cfg["deps"][t["dep"]] if all(level_free(j, x, h) for x, h in need_chain(cfg, j, l))]
             if len(free) >= t["k"]:
-                out.append(("waiting-while-free:%s" % config_class(cfg),
+                twice = any(len(v) != len(set(v)) for v in proj["lj"].values())
+                out.append(("waiting-while-free:%s%s" % (config_class(cfg), ":job-listed-twice" if twice else ""),
                             {"job": j, "target": ti + 1, "free_locations": free,
                              "statuses": {x: a["status"] for x, a in proj["alloc"].items()}, "lists": proj["lj"], "reserved": proj["res"]}))
                 break
@@ -780,26 +789,60 @@ def _cex_steps(trace):
 
 def run_property(ctx, prop):
     C = CONFIGS()
-    replayed = ctx.pick(["basic", "stacked", "replicas", "rollback", "retry"],
-                        ["basic", "storage", "stacked", "replicas", "rollback", "retry", "multi", "hostile"])
-    mc_only = ctx.pick(["storage", "multi", "hostile"], [])
+    replayed = ctx.pick(["basic", "stacked", "replicas", "rollback", "retry", "cancel"],
+                        ["basic", "storage", "stacked", "replicas", "rollback", "retry", "cancel", "multi", "hostile"])
+    mc_only = ctx.pick(["hostile"], [])
     invs = PROP_INVARIANTS[prop]
     props = ["DupIsNoop"] if prop == "C11" else []
+    sims = ctx.pick([("big", 60, 40)], [("big", 600, 50)])
+    live = ctx.pick(["basic", "stacked"], ["basic", "storage", "stacked", "multi", "retry"]) if prop == "C12" else []
+    # all TLC runs are independent: launch them concurrently (JVM start-up dominates on a busy machine)
+    from concurrent.futures import ThreadPoolExecutor
+    jobs = {}
     for name in replayed + mc_only:
         cfg = C[name]
         mod = "MC_Scheduler_%s" % name
         files = {mod + ".tla": render_mc(cfg, mod),
                  mod + ".cfg": render_cfg(cfg, invariants=invs, properties=props),
                  mod + "_emit.cfg": render_cfg(cfg, next_="EmitNext", invariants=invs, properties=props)}
+        wd = ctx.spec_workdir("Scheduler", files)
         if name in mc_only:
-            r = ctx.tlc("Scheduler", mod, mod + ".cfg", files=files, coverage=True, timeout=1500, continue_=True)
+            jobs[("mc", name)] = dict(module=mod, cfg=mod + ".cfg", workdir=wd, coverage=True, timeout=2400, continue_=True)
+        else:
+            jobs[("emit", name)] = dict(module=mod, cfg=mod + "_emit.cfg", workdir=wd, workers=1, timeout=2400, continue_=True)
+    for name, num, depth in sims:
+        cfg = C[name]
+        mod = "MC_Scheduler_%s" % name
+        sim = "Sim_Scheduler_%s" % name
+        files = {mod + ".tla": render_mc(cfg, mod), sim + ".tla": render_sim(sim, mod, depth),
+                 sim + ".cfg": render_cfg(cfg, init="SimInit", next_="SimNext", view=False)}
+        jobs[("sim", name)] = dict(module=sim, cfg=sim + ".cfg", workdir=ctx.spec_workdir("Scheduler", files), workers=1, count=False,
+                                   timeout=2400, simulate={"num": num, "depth": depth + 3})
+    for name in live:
+        # liveness instances: no re-schedule, and no measured storage residue (a residue legitimately stays reserved for
+        # ever -- C11 -- so "fits the empty system" would no longer imply "fits once the others have finished")
+        cfg = json.loads(json.dumps(C[name]))
+        cfg["maxgen"] = 1
+        for J in cfg["jobs"].values():
+            J["u"] = {m: 0 for m in J["u"]}
+        mod = "MC_Scheduler_%s" % name
+        files = {mod + ".tla": render_mc(cfg, mod),
+                 mod + "_live.cfg": render_cfg(cfg, spec="FairSpec", properties=["EventuallyScheduled"], view=False)}
+        jobs[("live", name)] = dict(module=mod, cfg=mod + "_live.cfg", workdir=ctx.spec_workdir("Scheduler", files), timeout=2400)
+    with ThreadPoolExecutor(max_workers=6) as ex:
+        futs = {k: ex.submit(lambda kw: ctx.tlc("Scheduler", kw.pop("module"), kw.pop("cfg"), **kw), dict(v)) for k, v in jobs.items()}
+        results = {k: f.result() for k, f in futs.items()}
+    for name in replayed + mc_only:
+        cfg = C[name]
+        if name in mc_only:
+            r = results[("mc", name)]
             ctx.require(r.error in (None, "invariant", "property"), "TLC failed on %s: %s" % (name, r.stdout[-800:]))
             ctx.require_coverage(r, ACTIONS)
             ctx.require(r.ok, "the model violates %s on configuration %s, which is not replayed in this tier" % (r.violated, name))
             ctx.count("model_states:%s" % name, r.distinct)
             continue
         # one run: complete state graph, invariants on every state, one JSON line per transition
-        r = ctx.tlc("Scheduler", mod, mod + "_emit.cfg", files=files, workers=1, timeout=1500, continue_=True)
+        r = results[("emit", name)]
         ctx.require(r.error in (None, "invariant", "property"), "TLC failed on %s: %s" % (name, r.stdout[-800:]))
         ctx.count("model_states:%s" % name, r.distinct)
         if not r.ok:
@@ -825,12 +868,8 @@ def run_property(ctx, prop):
             ctx.sample({"config": name, "behaviour": [a for a, _ in max(paths, key=len)]})
     if prop == "C12":
         # liveness under fairness, no state constraint (the instances are finite by construction)
-        for name in ctx.pick(["basic", "stacked"], ["basic", "storage", "stacked", "multi", "retry"]):
-            cfg = dict(C[name], maxgen=1)
-            mod = "MC_Scheduler_%s" % name
-            files = {mod + ".tla": render_mc(cfg, mod),
-                     mod + "_live.cfg": render_cfg(cfg, spec="FairSpec", properties=["EventuallyScheduled"], view=False)}
-            r = ctx.tlc("Scheduler", mod, mod + "_live.cfg", files=files, timeout=1500)
+        for name in live:
+            r = results[("live", name)]
             ctx.count("liveness_states:%s" % name, r.distinct)
             if r.error == "temporal":
                 steps = _cex_steps(r.trace or [])
@@ -839,14 +878,9 @@ def run_property(ctx, prop):
             ctx.require(r.ok, "liveness run failed on %s: %s" % (name, r.stdout[-800:]))
     ctx.exhaustive = True
     # random long behaviours of larger instances (TLC simulation), replayed the same way
-    for name, num, depth in ctx.pick([("big", 60, 40)], [("big", 1500, 60), ("hostile", 300, 40)]):
+    for name, num, depth in sims:
         cfg = C[name]
-        mod = "MC_Scheduler_%s" % name
-        sim = "Sim_Scheduler_%s" % name
-        files = {mod + ".tla": render_mc(cfg, mod), sim + ".tla": render_sim(sim, mod, depth),
-                 sim + ".cfg": render_cfg(cfg, init="SimInit", next_="SimNext", view=False)}
-        g = ctx.tlc("Scheduler", sim, sim + ".cfg", files=files, workers=1, count=False, timeout=1500,
-                    simulate={"num": num, "depth": depth + 3})
+        g = results[("sim", name)]
         hs = [x for x in g.printed_json() if isinstance(x, list) and x and isinstance(x[0], dict) and "t" in x[0]]
         ctx.require(len(hs) >= num // 2, "simulation produced %d behaviours (expected %d): %s" % (len(hs), num, g.stdout[-600:]))
         paths = [[(h["a"], h["t"]) for h in hist[1:]] for hist in hs]
@@ -863,3 +897,12 @@ def run_property(ctx, prop):
         "retry_interval (timer wake-ups) is not modelled; binding filters are empty (C13)",
         "environment events are delivered at suspension points of the scheduler: between them the event loop runs to quiescence",
     ]
+
+
+def replay_violation(ctx, prop, data):
+    """--replay: re-drive the recorded environment actions against the real scheduler; the oracles decide again."""
+    d = data["detail"]
+    cfg = CONFIGS()[d["config"]]
+    replay_paths(ctx, cfg, [[(a, None) for a in d["actions"]]], prop)
+    print("replayed %d actions on configuration %s: %s" % (len(d["actions"]), d["config"],
+          "violation reproduced" if (ctx.violations or ctx.known_hits) else "no violation"))
